@@ -73,10 +73,19 @@ Definition hres_eqb (a b : hres) : bool :=
   | RErr, RErr => true
   | _, _ => false
   end.
+(* a call that raised is compared by that fact only (the history stops there) *)
 Definition hout_eqb (a b : hout) : bool :=
   let '(ev, r, c, m) := a in
   let '(ev', r', c', m') := b in
-  list_eqb hev_eqb ev ev' && hres_eqb r r' && (c =? c') && tser_eqb m m'.
+  match r, r' with
+  | RErr, RErr => true
+  | _, _ => list_eqb hev_eqb ev ev' && hres_eqb r r' && (c =? c') && tser_eqb m m'
+  end.
+(* Sliding/ExpandingWindowSplitter(fh, window_length / initial_window, step_length, start_with_window) *)
+Definition mk_cv (sliding : bool) (fh : list Z) (wl step : Z) (sww : bool) : SkV.C10.Model.cvc :=
+  {| SkV.C10.Model.cv_kind := if sliding then SkV.C01.Model.Sliding else SkV.C01.Model.Expanding;
+     SkV.C10.Model.cv_fh := fh; SkV.C10.Model.cv_wl := wl; SkV.C10.Model.cv_step := step;
+     SkV.C10.Model.cv_sww := sww |}.
 
 (* implementation output of a run: None = rejected (ValueError / NotImplementedError) *)
 Definition impl_run := option (list fitcall * list (Z * xrow) * list Z * list Z).
